@@ -1,4 +1,4 @@
-import Wx.Pure.SerdeTag
+import Wx.Pure.SerdeTagThm
 /-! # C16 — Events survive a JSON round trip and the format is stable
 
 > Serialising any event to JSON and parsing it back yields an equal event, for every tag kind, every filesystem event
